@@ -32,3 +32,16 @@ chk("C11", "exploration",
     "and the wrapper log must show that different orders were actually delivered.",
     "Orders are injected at the readdir call of project code; trees are generated (incl. multiply-linked files in and across directories).",
     "differential bytes under injected readdir permutations", "3/C11")
+chk("C12", "exploration",
+    "gensquashfs, tar2sqfs (stdin fed in chunks of 1..65536 bytes), sqfs2tar (plain and -c gzip/xz/zstd/bzip2 to a pipe), rdsquashfs cat/unpack and sqfsdiff "
+    "are each run clean and then under seeded schedules of short counts (down to 1 byte) and EINTR runs injected at every read/write/pread/pwrite call of project code; "
+    "exit status and output sha256 (image / stdout / unpacked tree) must equal the clean run. The wrapper log proves the injections fired.",
+    "Injection at the project's own call sites (link-time wrap); libc-internal I/O (stdio messages) is not perturbed. Observed schedules only.",
+    "differential outputs under injected short I/O and EINTR", "3/C12")
+chk("C13", "fault_enumeration",
+    "For two small inputs x 16 tool scenarios (gensquashfs pack-file/pack-dir/xattr-file, tar2sqfs plain and gzip stdin, sqfs2tar plain/gzip/zstd/xz, rdsquashfs cat/stat/list/xattr/describe/unpack) "
+    "a counting run records the number of calls per class; then one ASan run per (class, k, kind): k-th read/write/pread/pwrite/ftruncate/open/fsync/readdir failing with EIO/ENOSPC/EACCES "
+    "(also EINTR-then-error and persistent errors) and the k-th allocation by project code returning NULL. Oracle: no sanitizer report or signal; exit != 0 implies a diagnostic and (packers) no output file; "
+    "exit 0 implies output identical to the fault-free run. Plus truncated tar streams (cut inside a member) and truncated images.",
+    "Single fault per run, -j 1; allocation faults only for allocations made by project code (link-time wrap), not inside libc/zlib/xz/zstd.",
+    "exhaustive single-fault injection via link-time wrappers under ASan", "3/C13")
